@@ -117,6 +117,19 @@ Theorem C19_history_refcounts : forall total ops i,
 Proof. exact history_refcounts. Qed.
 Print Assumptions C19_history_refcounts.
 
+(* Round 4: the count is EXACT — count of slot i = number of known programs playing from slot i (+1 for slot 0).  No
+   reference is leaked by any history (forced re-uploads, refused uploads, removal of unknown names, duplicates inside a
+   program ...): a slot with a positive count is played by a known program or is the idle slot, so an unused slot is
+   always reclaimed by cleanup() / offered to the placement. *)
+Theorem C19_history_refcounts_exact : forall total ops i,
+  let d := run (clear total) ops in
+  (i < length (dv_refs d))%nat ->
+  nth i (dv_refs d) 0 =
+  Z.of_nat (length (filter (fun p => existsb (Z.eqb (Z.of_nat i)) (pg_w2s p)) (dv_known d)))
+  + (if Nat.eqb i 0 then 1 else 0).
+Proof. exact history_refcounts_exact. Qed.
+Print Assumptions C19_history_refcounts_exact.
+
 (* The idle slot after every history: it exists, the instrument and the driver's record hold the idle waveform in it
    (no upload writes to it, no cleanup drops it), and its count exceeds the number of programs sharing it. *)
 Theorem C19_history_idle_slot : forall total ops,
@@ -272,6 +285,94 @@ Theorem C19_findpositions_model_meets_spec : forall data xs,
   prim_spec (PFindPositions data xs (find_positions data xs)) = true.
 Proof. exact findpositions_meets_spec. Qed.
 Print Assumptions C19_findpositions_model_meets_spec.
+
+(* ------------------------------------------------------------------------------------------------------------- *)
+(* Round 4: the copy of the placement in hardware/feature_awg/tabor.py sorts with numpy's DEFAULT argsort in its second
+   loop (the order of the remaining segments; in every iteration the free slots by capacity).  The order of equal keys
+   is unspecified.  ModelND.find_place_nd takes the two sorts from an oracle indexed by the call number; `oracle_ok` =
+   every answer is a permutation of the positions that brings the keys into non-decreasing order (all that argsort
+   promises).  EVERY tie order yields a decision that satisfies the four clauses, and the history theorem holds for
+   the driver run with any such oracle.  With the stable sort as oracle the definition is Model.find_place. *)
+Require Import QV.C19.ModelND QV.C19.ProofsND.
+
+Theorem C19_decision_any_tie_order : forall (srt : sort_oracle) mem new_hashes new_lens d,
+  oracle_ok srt -> Forall (fun r => 0 <= r) (m_refs mem) ->
+  find_place_nd srt mem new_hashes new_lens = Ok d -> decision_ok mem new_hashes new_lens d.
+Proof. exact find_place_nd_decision_ok. Qed.
+Print Assumptions C19_decision_any_tie_order.
+
+Theorem C19_stable_sort_is_an_instance : forall mem nh nl,
+  find_place_nd (fun _ => argsort) mem nh nl = find_place mem nh nl.
+Proof. exact find_place_nd_stable. Qed.
+Print Assumptions C19_stable_sort_is_an_instance.
+
+Theorem C19_history_any_tie_order : forall srt : sort_oracle, oracle_ok srt ->
+  forall total ops p j q,
+  let d := run_with (find_place_nd srt) (clear total) ops in
+  In p (dv_known d) -> nth_error (pg_w2s p) j = Some q ->
+  exists i, q = Z.of_nat i /\ (i < length (dv_dev d))%nat /\
+            nth i (dv_dev d) 0 = nth j (pg_segs p) 0 /\ 1 <= nth i (dv_refs d) 0.
+Proof.
+  intros srt H. apply history_slots_hold_data_gen. intros mem nh nl d. apply find_place_nd_decision_ok. exact H.
+Qed.
+Print Assumptions C19_history_any_tie_order.
+
+(* non-vacuity: two legal argsorts of [384; 384] that differ, and a layout on which the tie order decides WHICH of two
+   free slots is overwritten (slot 2 with the stable sort, slot 1 with ties the other way round); both are safe *)
+Theorem C19_tie_order_matters :
+  is_argsort [384; 384] (argsort [384; 384]) /\ is_argsort [384; 384] (argsort_rev_ties [384; 384]) /\
+  argsort [384; 384] <> argsort_rev_ties [384; 384] /\
+  find_place_nd (fun _ => argsort) nd_mem [9] [300] = Ok {| d_w2s := [-1]; d_amend := [false]; d_insert := [2] |} /\
+  find_place_nd (fun _ => argsort_rev_ties) nd_mem [9] [300] = Ok {| d_w2s := [-1]; d_amend := [false]; d_insert := [1] |}.
+Proof. exact nd_tie_order_matters. Qed.
+Print Assumptions C19_tie_order_matters.
+
+(* ------------------------------------------------------------------------------------------------------------- *)
+(* Round 4: `_segment_lengths` and the :TRAC:DEF / download_segment_lengths traffic (DriverLens.v, a layer on top of
+   Driver.v: its `x_d` component IS `run`).  A slot plays `defined length` points; a program's segment is intact only if
+   its slot is defined with the segment's own length.  `lenof` = length of the segment with a given hash (different
+   segments do not share a hash — the identification of content and hash the whole driver model rests on).
+   After every history: the length array is as long as the others, the instrument's table of defined lengths equals the
+   driver's belief, every slot is defined with the length of the segment it holds, never longer than its capacity. *)
+Require Import QV.C19.DriverLens QV.C19.ProofsLens.
+
+Theorem C19_history_lengths : forall lenof total ops,
+  lenof IDLE = 192 -> Forall (op_lens_from lenof) ops ->
+  let s := xrun find_place (xclear total) ops in
+  x_d s = run (clear total) ops /\
+  length (x_lens s) = length (dv_caps (x_d s)) /\ x_devlen s = x_lens s /\
+  (forall i, (i < length (dv_caps (x_d s)))%nat ->
+     nth i (x_devlen s) 0 = lenof (nth i (dv_dev (x_d s)) 0) /\ nth i (x_devlen s) 0 <= nth i (dv_caps (x_d s)) 0).
+Proof. exact history_lengths. Qed.
+Print Assumptions C19_history_lengths.
+
+(* ... in particular for the slots in use: waveform j of a known program sits in a slot that the instrument plays with
+   exactly that waveform's length *)
+Theorem C19_history_program_lengths : forall lenof total ops p j q,
+  lenof IDLE = 192 -> Forall (op_lens_from lenof) ops ->
+  let s := xrun find_place (xclear total) ops in
+  In p (dv_known (x_d s)) -> nth_error (pg_w2s p) j = Some q ->
+  exists i, q = Z.of_nat i /\ (i < length (x_devlen s))%nat /\
+            nth i (x_devlen s) 0 = lenof (nth j (pg_segs p) 0) /\ nth i (x_lens s) 0 = lenof (nth j (pg_segs p) 0).
+Proof. exact history_program_lengths. Qed.
+Print Assumptions C19_history_program_lengths.
+
+(* the extended model refines Driver.v for every placement function and every history *)
+Theorem C19_lengths_model_refines_driver : forall place ops s, x_d (xrun place s ops) = run_with place (x_d s) ops.
+Proof. exact xrun_refines. Qed.
+Print Assumptions C19_lengths_model_refines_driver.
+
+(* non-vacuity: shorter segments overwrite freed slots (capacity 256 / 400, defined length 224 / 208), then both branches
+   of _amend_segments' length update are taken *)
+Theorem C19_history_lengths_nonvacuous :
+  lens_lenof IDLE = 192 /\ Forall (op_lens_from lens_lenof) lens_ops /\
+  let s5 := xrun find_place (xclear 100000) (firstn 5 lens_ops) in
+  let s := xrun find_place (xclear 100000) lens_ops in
+  count_ne (dv_caps (x_d s5)) (x_lens s5) = 2%nat /\
+  dv_hashes (x_d s) = [0; 15; 14; 13; 16; 17; 18] /\ dv_caps (x_d s) = [192; 256; 400; 192; 1000; 1008; 1024] /\
+  x_lens s = [192; 224; 208; 192; 1000; 1008; 1024] /\ x_devlen s = [192; 224; 208; 192; 1000; 1008; 1024].
+Proof. exact history_lengths_example. Qed.
+Print Assumptions C19_history_lengths_nonvacuous.
 
 (* ------------------------------------------------------------------------------------------------------------- *)
 (* REMARK — NOT PART OF PROPERTY C19.  C19 is a safety property (a refusal is always safe).  The corresponding
